@@ -203,7 +203,8 @@ class Turnstile:
     """Controls the completion order of async node bodies: a body registers, then waits until the
     controller releases it; the controller always releases the waiting body with the smallest rank."""
 
-    def __init__(self, rank):
+    def __init__(self, rank, hold=False):
+        self.hold = hold  # adversarial mode: release a body only once the number of open bodies has stopped growing
         self.rank = rank  # (node name, arrival count) -> sortable key
         self.waiting = []
         self.inflight = 0
@@ -226,6 +227,15 @@ class Turnstile:
         while not self.stop:
             for _ in range(4):
                 await asyncio.sleep(0)
+            if self.hold:
+                # keep as many bodies open as the framework allows: wait until nothing new arrives
+                stable, last = 0, self.inflight
+                while stable < 12 and not self.stop:
+                    await asyncio.sleep(0)
+                    if self.inflight == last:
+                        stable += 1
+                    else:
+                        stable, last = 0, self.inflight
             if self.waiting:
                 self.waiting.sort(key=lambda t: t[0])
                 _, name, fut = self.waiting.pop(0)
@@ -274,11 +284,16 @@ def make_function(n, env, is_async=False):
     dflt = n.get("defaults", {})
     sig = ", ".join(f"{p}={_py(dflt[p])}" if p in dflt else p for p in params)
     fname = "fn_" + n["name"]
-    head = f"{'async ' if is_async else ''}def {fname}({'*, ' + sig if params else ''}):\n"
+    wrap = is_async and n.get("wrap_sync")
+    inner_name = fname + "_inner" if wrap else fname
+    head = f"{'async ' if is_async else ''}def {inner_name}({'*, ' + sig if params else ''}):\n"
     body = f"    _log.append(({n['name']!r}, dict({', '.join(f'{p}={p}' for p in params)})))\n"
     if is_async:
         body += f"    await _ts.enter({n['name']!r})\n"
     body += _fn_body(n["fn"], params, len(n.get("outputs", [])))
+    if wrap:
+        # a plain function returning the coroutine (what a non-async decorator around an async def produces)
+        body += f"\ndef {fname}({'*, ' + sig if params else ''}):\n    return {inner_name}({', '.join(f'{p}={p}' for p in params)})\n"
     ns = dict(env)
     if n["fn"][0] == "gtable":
         ns["_tbl"] = {k: d for k, d in n["fn"][1]}
@@ -533,7 +548,7 @@ def run_real(g, run, rank=None):
                 else:
                     res = SyncRunner().run(G, dict(run["inputs"]), **kw)
             else:
-                ts = Turnstile(rank or (lambda name: 0))
+                ts = Turnstile(rank or (lambda name: 0), hold=bool(run.get("hold")))
 
                 async def go():
                     G = build_graph(g, rr.env(ts), True)
@@ -548,7 +563,12 @@ def run_real(g, run, rank=None):
                         ts.stop = True
                         await ts.task
 
-                res = asyncio.run(go())
+                if run.get("watchdog"):
+                    async def guarded():
+                        return await asyncio.wait_for(go(), timeout=run["watchdog"])
+                    res = asyncio.run(guarded())
+                else:
+                    res = asyncio.run(go())
                 obs["release_order"] = ts.order
                 obs["peak_inflight"] = ts.peak
             if mp is not None:
